@@ -39,14 +39,16 @@ def gene_strand(g):
 
 
 def export(spec, flavor, translations, ctx=None):
+    # a file may hold several records: further collections (spec["more"]) on sequences chr2, chr3 are written after the first
     coll = mkcollection(spec["obj"], chrom_parent(spec["genome"]))
+    colls = [coll] + [mkcollection(m_["obj"], chrom_parent(m_["genome"], name="chr%d" % (k_ + 2)), sequence_name="chr%d" % (k_ + 2)) for k_, m_ in enumerate(spec.get("more") or [])]
     buf = io.StringIO()
     with warnings.catch_warnings():
         warnings.simplefilter("ignore")
-        collection_to_genbank([coll], buf, genbank_type=GenbankFlavor[flavor], update_translations=translations)
+        collection_to_genbank(colls, buf, genbank_type=GenbankFlavor[flavor], update_translations=translations)
         if ctx is not None:
             buf2 = io.StringIO()
-            collection_to_genbank([coll], buf2, genbank_type=GenbankFlavor[flavor], update_translations=translations)
+            collection_to_genbank(colls, buf2, genbank_type=GenbankFlavor[flavor], update_translations=translations)
             ctx.true("second_export_same_file[%s]" % flavor, buf2.getvalue() == buf.getvalue(), {"first": buf.getvalue()[:300], "second": buf2.getvalue()[:300]})
     return coll, buf.getvalue()
 
@@ -108,8 +110,11 @@ def first_frame(t):
 
 
 def check_genbank(spec, ctx):
+    parts = [(spec["obj"], spec["genome"])] + [(m_["obj"], m_["genome"]) for m_ in (spec.get("more") or [])]
+    if len(parts) > 1:
+        ctx.nt("several_records")
     o, g = spec["obj"], spec["genome"]
-    genes = o.get("genes", [])
+    genes = [gn for o_, _ in parts for gn in o_.get("genes", [])]
     if any(t["strand"] == "-" and len(t["exons"]) > 1 and "cds" in t for gn in genes for t in gn["transcripts"]):
         ctx.nt("minus&multi_exon")
     if any(t.get("offset") for gn in genes for t in gn["transcripts"] if "cds" in t):
@@ -126,16 +131,21 @@ def check_genbank(spec, ctx):
             coll, text = export(spec, flavor, translations, ctx=ctx)
             # (a) independent reader
             recs = list(SeqIO.parse(io.StringIO(text), "genbank"))
-            if not ctx.eq("one_record", len(recs), 1):
+            if not ctx.eq("one_record_per_sequence", len(recs), len(parts)):
                 continue
-            rec = recs[0]
-            ctx.eq("sequence", str(rec.seq).upper(), g.upper())
-            ctx.eq("record_name", rec.name, "chr1")
-            exp = expected_features(o, flavor)
-            got = [(f.type, blocks_of(f), strand_of(f)) for f in rec.features]
-            if not ctx.eq("features[%s]" % flavor, got, [(t, b, s) for t, b, s, *_ in exp]):
+            all_feats, ok_ = [], True
+            for k_, ((o_, g_), rec) in enumerate(zip(parts, recs)):
+                ctx.eq("sequence", str(rec.seq).upper(), g_.upper())
+                ctx.eq("record_name", rec.name, "chr%d" % (k_ + 1))
+                exp = expected_features(o_, flavor)
+                got = [(f.type, blocks_of(f), strand_of(f)) for f in rec.features]
+                if not ctx.eq("features[%s]" % flavor, got, [(t, b, s) for t, b, s, *_ in exp]):
+                    ok_ = False
+                    continue
+                all_feats.extend((f, e_, g_) for f, e_ in zip(rec.features, exp))
+            if not ok_:
                 continue
-            for f, (etype, eb, es, eq, kind, src) in zip(rec.features, exp):
+            for f, (etype, eb, es, eq, kind, src), g in all_feats:
                 for k, v in eq.items():
                     ctx.eq("qualifier[%s]:%s:%s" % (flavor, etype, k), f.qualifiers.get(k), v)
                 # ... and no identifier the source member does not have (e.g. one leaking over from a sibling isoform)
@@ -174,12 +184,15 @@ def check_genbank(spec, ctx):
                 with warnings.catch_warnings():
                     warnings.simplefilter("ignore")
                     pr = list(parse_genbank(io.StringIO(text), gbk_type=GenBankParserType[mode]))
-                if not ctx.eq("parsed_records[%s]" % mode, len(pr), 1):
+                if not ctx.eq("parsed_records[%s]" % mode, len(pr), len(parts)):
                     continue
-                pc = pr[0].to_annotation_collection()
-                parsed[mode] = pc
-                ctx.eq("parsed_sequence[%s]" % mode, str(pc.sequence).upper(), g.upper())
-                got_genes = {gn.locus_tag: gn for gn in pc.genes}
+                pcs = [r_.to_annotation_collection() for r_ in pr]
+                parsed[mode] = pcs
+                for pc_, (o_, g_) in zip(pcs, parts):
+                    ctx.eq("parsed_sequence[%s]" % mode, str(pc_.sequence).upper(), g_.upper())
+                    ctx.eq("parsed_genes_on_their_sequence[%s]" % mode, sorted(gn.locus_tag for gn in pc_.genes),
+                           sorted((gn.get("locus_tag") or gn.get("gene_symbol") or gn.get("gene_id")) for gn in o_.get("genes", [])))
+                got_genes = {gn.locus_tag: gn for pc_ in pcs for gn in pc_.genes}
                 src_genes = {(gn.get("locus_tag") or gn.get("gene_symbol") or gn.get("gene_id")): gn for gn in genes}
                 if not ctx.eq("parsed_locus_tags[%s,%s]" % (flavor, mode), sorted(got_genes), sorted(src_genes)):
                     continue
@@ -210,8 +223,8 @@ def check_genbank(spec, ctx):
                         if stx.get("transcript_symbol"):
                             ctx.true("transcript_name_kept", stx["transcript_symbol"] in (pt.qualifiers or {}).get("transcript_name", set()), pt.qualifiers)
             if len(parsed) == 3:
-                def canon_d(c):
-                    return json.loads(json.dumps(c.to_dict(), sort_keys=True, default=str))
+                def canon_d(cs_):
+                    return [json.loads(json.dumps(c.to_dict(), sort_keys=True, default=str)) for c in cs_]
                 d = {m: canon_d(c) for m, c in parsed.items()}
                 ctx.eq("modes_agree[sorted,hybrid]", d["SORTED"], d["HYBRID"])
                 ctx.eq("modes_agree[locus_tag,hybrid]", d["LOCUS_TAG"], d["HYBRID"])
@@ -219,7 +232,15 @@ def check_genbank(spec, ctx):
 
 @st.composite
 def strat_genbank(draw, tier="quick"):
-    ng = draw(st.integers(1, 4))
+    sp = draw(_one_record(""))
+    if draw(st.integers(0, 3)) == 0:
+        sp["more"] = [draw(_one_record("s%d" % k, max_genes=2)) for k in range(draw(st.integers(1, 2)))]
+    return sp
+
+
+@st.composite
+def _one_record(draw, tag, max_genes=4):
+    ng = draw(st.integers(1, max_genes))
     genes = []
     cursor = draw(st.integers(0, 4))
     for i in range(ng):
@@ -231,11 +252,11 @@ def strat_genbank(draw, tier="quick"):
         for j in range(ntx):
             t = draw(S.transcript_spec(max_exons=3, max_len=9, strand=strand, coding=coding if ntx == 1 else draw(st.sampled_from([coding, coding, not coding])), zero_gap_cds=False, frameshift_prob=0, start_min=cursor, start_max=2))
             coding_t = "cds" in t
-            t["transcript_id"] = "g%dt%d" % (i, j)
-            t["transcript_symbol"] = draw(st.one_of(st.none(), st.just("sym%d_%d" % (i, j))))
+            t["transcript_id"] = "%sg%dt%d" % (tag, i, j)
+            t["transcript_symbol"] = draw(st.one_of(st.none(), st.just("%ssym%d_%d" % (tag, i, j))))
             if coding_t:
                 t["transcript_type"] = "protein_coding"
-                t["protein_id"] = draw(st.one_of(st.none(), st.just("prot%d_%d" % (i, j))))
+                t["protein_id"] = draw(st.one_of(st.none(), st.just("%sprot%d_%d" % (tag, i, j))))
                 if draw(st.integers(0, 3)) == 0:
                     # a /translation carried over from an earlier parse of another sequence version
                     t["qualifiers"] = dict(t.get("qualifiers") or {}, translation=["MSTALEPEPTIDE"])
@@ -256,8 +277,8 @@ def strat_genbank(draw, tier="quick"):
         txs = uniq
         coding = any("cds" in t for t in txs)
         hi = max(t["exons"][-1][1] for t in txs)
-        genes.append({"transcripts": txs, "gene_id": draw(st.one_of(st.none(), st.just("gid%d" % i))), "gene_symbol": "GENE%d" % i,
-                      "gene_type": "protein_coding" if coding else txs[0]["transcript_type"], "locus_tag": draw(st.one_of(st.none(), st.just("LT_%03d" % i))),
+        genes.append({"transcripts": txs, "gene_id": draw(st.one_of(st.none(), st.just("%sgid%d" % (tag, i)))), "gene_symbol": "GENE%s%d" % (tag, i),
+                      "gene_type": "protein_coding" if coding else txs[0]["transcript_type"], "locus_tag": draw(st.one_of(st.none(), st.just("LT%s_%03d" % (tag, i)))),
                       "qualifiers": draw(S.simple_qualifiers(1))})
         cursor = hi + draw(st.sampled_from([0, 0, 1, 3, 7]))
     fcs = []
@@ -266,8 +287,8 @@ def strat_genbank(draw, tier="quick"):
         s0 = fc["features"][0]["strand"]
         for f in fc["features"]:
             f["strand"] = s0
-        fc["feature_collection_name"] = "FC0"
-        fc["locus_tag"] = "LT_fc"
+        fc["feature_collection_name"] = "FC0" + tag
+        fc["locus_tag"] = "LT_fc" + tag
         fcs.append(fc)
         cursor = max(f["blocks"][-1][1] for f in fc["features"])
     n = cursor + draw(st.integers(1, 5))
@@ -282,7 +303,7 @@ PROP = Prop(
     pid="C12",
     legs=[
         Leg("genbank", check_genbank, strategy=strat_genbank, n_quick=150, n_thorough=1500, shards_quick=8,
-            must_hit=["minus&multi_exon", "offset!=0", "noncoding", "two_genes_touching", "translation_checked", "stale_translation_qualifier", "multi_isoform_gene"],
+            must_hit=["minus&multi_exon", "offset!=0", "noncoding", "two_genes_touching", "translation_checked", "stale_translation_qualifier", "multi_isoform_gene", "several_records"],
             rule="1..4 single-strand genes at increasing positions (adjacent genes possible), 1..2 isoforms, coding (offset 0/1/2, one reading frame) or non-coding (ncRNA/tRNA/rRNA/misc_RNA/tmRNA/lncRNA), unique symbols and locus tags, optional feature collection; x flavour {prokaryotic, eukaryotic} x update_translations x parser mode {sorted, locus-tag, hybrid}"),
     ],
     rule="Oracle: Bio.SeqIO (independent reader) for record types/blocks/strand/qualifiers, Bio codon table for /translation; source spec for the "
